@@ -79,6 +79,9 @@ func r021(c *Ctx, r *R) {
 				// must be the send arm of a non-blocking select on batchItemCh
 				ok := false
 				for _, g := range lf.Guards() {
+					if g.Derived {
+						continue // a select inside a helper: summarised below
+					}
 					x, k, tme, isEq := eqConst(g.Cond)
 					if !isEq || tme != g.Branch {
 						continue
